@@ -170,6 +170,8 @@ def main():
     replays_done = 0
     for r in sorted(results, key=lambda r: r['label']):
         j = r['_job']
+        if os.environ.get('VERIF_VERBOSE'):
+            print('SHARD %s verdict=%s paths=%s wall=%ss pre=%s' % (r['label'], r.get('verdict'), r.get('num_paths'), r.get('wall_s'), j['extra_pre']))
         po = per_ob[j['obligation']]
         ob = ob_by_name[j['obligation']]
         if j['kind'] == 'main':
@@ -202,6 +204,11 @@ def main():
                 if rr.get('harness_violated') and rr.get('public_violated', True) is not False:
                     violations.append((j['obligation'], j['fn'], args, rr, r.get('messages'), ob.get('public_replay')))
                     po['notes'].append('VIOLATED with %s' % args)
+                elif rr.get('harness_violated') and rr.get('public_violated') is False:
+                    # the harness-level counterexample does not reproduce through the public API (e.g. it needs names that
+                    # are not identifiers): spurious; the shard's search stopped there, so it is inconclusive (DESIGN.md 3.4)
+                    inconclusive.append((r['label'], 'spurious counterexample %s: %s' % (args, str(rr.get('public_detail'))[:300]), r.get('path_tree')))
+                    po['notes'].append('spurious counterexample %s' % args)
                 else:
                     harness_errors.append('%s: counterexample %s did not replay (%s)' % (r['label'], args, json.dumps(rr)[:600]))
                     po['notes'].append('spurious counterexample %s' % args)
